@@ -75,7 +75,7 @@ Definition enc_res (r : res (list item)) : tree :=
   end.
 
 Definition enc_cls (ci : bool * cls) : tree :=
-  I (match snd ci with Bound => 0 | KeyElem => 1 | KeyCode => 2 | Reject => 3 end)%Z.
+  I (match snd ci with Bound => 0 | KeyElem => 1 | KeyCode | KeySeqBad => 2 | Reject => 3 end)%Z.
 
 Fixpoint assocZ {A} (k : N) (l : list (N * A)) : option A :=
   match l with [] => None | (k', v) :: r => if N.eqb k k' then Some v else assocZ k r end.
